@@ -3,6 +3,9 @@
 import json, os, subprocess, sys
 pid = sys.argv[1]
 tag = sys.argv[2] if len(sys.argv) > 2 else "a"
+EXTRA = "" if tag == "a" else """
+This is a second round: a first round already produced simple one-token operator flips and off-by-one changes in the most obvious functions. Prefer changes of a different nature: stale or shared state (a cache or memo that is not invalidated, a list aliased instead of copied), a wrong order of two statements, a special case dropped from a rarely used option or code path, a helper used by two callers changed for one caller's convenience, two small edits that are each harmless alone. Look at less central files among the anchors too.
+"""
 prop = next(json.loads(l) for l in open('/verif/properties.jsonl') if json.loads(l)['id'] == pid)
 wt = f"/tmp/seedwork/wt_{pid}_{tag}"
 if not os.path.exists(wt):
@@ -33,6 +36,7 @@ Requirements for each change:
      On the pristine tree this gives 106 passed and 4 known failures/errors (urwid.display._win32, _win32_raw_display, glib_loop collection errors and Screen._attrspec_to_escape). A change is acceptable only if the same 106 still pass (the same 4 may keep failing). Check this for each change.
   4. Verify yourself: demo.py passes on pristine (`git stash` / `git checkout -- urwid` to get back) and fails with the patch. After producing each patch.diff, restore the worktree to pristine (`git -C {wt} checkout -- urwid`) before starting the next one, and leave it pristine at the end.
 
+{EXTRA}
 Environment notes: no network. Use /venv/bin/python (Python 3.12; urwid's dependencies are installed there). When running python from the worktree root, `import urwid` picks up the worktree copy (check `urwid.__file__`). In demo.py insert the worktree root at sys.path[0] explicitly: `sys.path.insert(0, os.path.dirname(os.path.dirname(os.path.dirname(os.path.abspath(__file__)))))` before importing urwid, so it works from any cwd. Keep scratch files inside {wt}/_out only.
 
 When done, reply with a short summary per change: file/function changed, the trigger needed, and confirmation of the three verifications (tests still pass, demo passes pristine, demo fails patched).""")
